@@ -195,20 +195,22 @@ def estimatePayeeRange (tx : Transaction) (payee : Bytes) : Rng :=
   let startCol := tx.date.range.stop.col + 1 + (if tx.status != .none then 2 else 0)
   ⟨⟨tx.date.range.start.line, startCol, 0⟩, ⟨tx.date.range.start.line, startCol + u16len payee, 0⟩⟩
 
+/-- The element reported for a tag whose range contains the cursor: the name part up to and
+    including the colon column, the value part after it. -/
+def tagElement (t : Tag) (p : LspPos) : Element :=
+  if p.char + 1 ≤ t.range.start.col + u16len t.name then
+    .tag ⟨t.range.start, ⟨t.range.start.line, t.range.start.col + u16len t.name,
+                          t.range.start.off + t.name.length⟩⟩ t.name
+  else
+    .tagValue ⟨⟨t.range.start.line, t.range.start.col + u16len t.name + 1,
+                t.range.start.off + t.name.length + 1⟩, t.range.stop⟩ t.name t.value
+
 /-- `findTagAtPosition`. -/
 def findTagAtPosition (tags : List Tag) (p : LspPos) : Option Element :=
   match tags with
   | [] => none
   | t :: ts =>
-    if !positionInRange p t.range then findTagAtPosition ts p
-    else
-      let colonCol := t.range.start.col + u16len t.name
-      let cursorCol := p.char + 1
-      if cursorCol ≤ colonCol then
-        some (.tag ⟨t.range.start, ⟨t.range.start.line, colonCol, t.range.start.off + t.name.length⟩⟩ t.name)
-      else
-        some (.tagValue ⟨⟨t.range.start.line, colonCol + 1, t.range.start.off + t.name.length + 1⟩,
-                         t.range.stop⟩ t.name t.value)
+    if positionInRange p t.range then some (tagElement t p) else findTagAtPosition ts p
 
 /-- The loop over `tx.Comments`. -/
 def findInComments (cs : List Comment) (p : LspPos) : Option Element :=
@@ -218,6 +220,12 @@ def findInComments (cs : List Comment) (p : LspPos) : Option Element :=
     | some e => some e
     | none => findInComments cs p
 
+/-- `p.Amount != nil && positionInRange(pos, p.Amount.Range)`. -/
+def amountElement (po : Posting) (p : LspPos) : Option Element :=
+  match po.amount with
+  | some a => if positionInRange p a.range then some (.amount a.range a po.cost) else none
+  | none => none
+
 /-- The loop over `tx.Postings`: account, then amount, then the posting's tags. -/
 def findInPostings (ps : List Posting) (p : LspPos) : Option Element :=
   match ps with
@@ -225,24 +233,26 @@ def findInPostings (ps : List Posting) (p : LspPos) : Option Element :=
   | po :: ps =>
     if positionInRange p po.account.range then some (.account po.account.range po.account)
     else
-      match (match po.amount with
-             | some a => if positionInRange p a.range then some (Element.amount a.range a po.cost) else none
-             | none => none) with
+      match amountElement po p with
       | some e => some e
       | none =>
         match findTagAtPosition po.tags p with
         | some e => some e
         | none => findInPostings ps p
 
+/-- `payee != "" && positionInRange(pos, estimatePayeeRange(tx, payee))`. -/
+def payeeElement (tx : Transaction) (p : LspPos) : Option Element :=
+  if payeeOrDescription tx != [] then
+    if positionInRange p (estimatePayeeRange tx (payeeOrDescription tx)) then
+      some (.payee (estimatePayeeRange tx (payeeOrDescription tx)) (payeeOrDescription tx) tx)
+    else none
+  else none
+
 /-- One iteration of the loop of `findElementAtPosition`. -/
 def findInTransaction (tx : Transaction) (p : LspPos) : Option Element :=
   if positionInRange p tx.date.range then some (.date tx.date.range tx)
   else
-    let payee := payeeOrDescription tx
-    match (if payee != [] then
-             let r := estimatePayeeRange tx payee
-             if positionInRange p r then some (Element.payee r payee tx) else none
-           else none) with
+    match payeeElement tx p with
     | some e => some e
     | none =>
       match findInComments tx.comments p with
@@ -328,7 +338,7 @@ inductive Figures where
   | date (year month day : Int) (payee : Bytes) (postings : Nat)
   | tag (name : Bytes) (usage : Nat) (values : List Bytes)
   | tagValue (name value : Bytes) (usage : Nat)
-deriving Repr, Inhabited
+deriving Repr, Inhabited, DecidableEq
 
 /-- `buildHoverContentWithTransactions`. -/
 def buildFigures (e : Element) (balances : Balances) (txs : List Transaction) : Figures :=
@@ -347,7 +357,7 @@ def toU32 (x : Nat) : Nat := if x = 0 then 4294967295 else (x - 1) % 4294967296
 structure HoverResult where
   figures : Figures
   range : Nat × Nat × Nat × Nat
-deriving Repr, Inhabited
+deriving Repr, Inhabited, DecidableEq
 
 /-- `Server.Hover` once the document is found: `doc` is `parser.Parse` of the requesting
     document. -/
